@@ -16,7 +16,7 @@ import z3
 
 from .values import *  # noqa: F401,F403
 from .values import SV, VInt, VFloat, VStr, VBytes, VNone, NONE, VNative, NOTIMPL, VList, VTuple, VDict, VSet, \
-    VObj, VFunc, VModel, VBound, VSuper, VIter, VOpaque, FP, RNE, BYTES, is_concrete
+    VObj, VFunc, VModel, VBound, VSuper, VIter, VOpaque, VSymIter, VSymList, VTok, FP, RNE, BYTES, is_concrete
 from .source import Sources
 
 
@@ -324,6 +324,11 @@ class Run:
         self.ghost = {}
         self.depth = 0
         self.trace = []
+        self.asserts = []     # in-path proof obligations: (pc snapshot, formula, label)
+
+    def check(self, formula, label):
+        """Record an obligation that must hold at this program point (loop/fold invariants)."""
+        self.asserts.append((list(self.pc), formula, label))
 
     # -- symbols
     def fresh(self, prefix, sort):
@@ -629,11 +634,11 @@ class Run:
                 return ov(self, *args, **kwargs)
             if isinstance(obj, types.FunctionType) and self.engine.sources.is_repo_function(obj):
                 return self.call_ast(self.engine.vfunc_of(obj), args, kwargs)
-            if isinstance(obj, type):
-                return self.instantiate(obj, args, kwargs)
             m = self.engine.models.call_model(obj)
             if m is not None:
                 return m(self, *args, **kwargs)
+            if isinstance(obj, type):
+                return self.instantiate(obj, args, kwargs)
             if isinstance(obj, types.MethodType):
                 return self._call(VBound(lift(obj.__func__), lift(obj.__self__)), args, kwargs)
             raise Unsupported(f"call of native {obj!r}")
@@ -1310,6 +1315,8 @@ class Run:
         return self.eval(s, env)
 
     def getitem(self, obj, idx):
+        if isinstance(obj, VNative) and type(obj.obj).__module__ in ("typing", "types") and not isinstance(obj.obj, (dict, list, tuple)):
+            return obj     # typing construct subscripted at run time (Callable[...], Tuple[...]): a type expression
         hit = self.find_attr(cls_of(obj), "__getitem__")
         if hit is None:
             if isinstance(obj, VNative) and isinstance(obj.obj, type):
@@ -1332,13 +1339,13 @@ class Run:
         return v
 
     # comprehensions
-    def _comp(self, e, env, emit):
+    def _comp(self, e, env, emit, first=None):
         def rec(gi, cenv):
             if gi == len(e.generators):
                 yield emit(cenv)
                 return
             g = e.generators[gi]
-            src = self.eval(g.iter, cenv if gi else env)
+            src = first if (gi == 0 and first is not None) else self.eval(g.iter, cenv if gi else env)
             for item in self.iterate(src):
                 self.assign(g.target, item, cenv)
                 if all(self.is_true(self.eval(c, cenv)) for c in g.ifs):
@@ -1352,7 +1359,18 @@ class Run:
         return VSet(set, list(self._comp(e, env, lambda ce: self.eval(e.elt, ce))))
 
     def e_GeneratorExp(self, e, env):
-        return VIter(self._comp(e, env, lambda ce: self.eval(e.elt, ce)), "generator")
+        g0 = e.generators[0]
+        src = self.eval(g0.iter, env)          # the outermost iterable is evaluated at creation time
+        if isinstance(src, (VSymIter, VSymList)):
+            if len(e.generators) != 1 or g0.ifs:
+                raise Unsupported("generator expression with filter over a symbolic sequence")
+
+            def nxt(run, src=src):
+                cenv = env.child()
+                run.assign(g0.target, src.next_elem(run), cenv)
+                return run.eval(e.elt, cenv)
+            return VSymIter(nxt, "generator")
+        return VIter(self._comp(e, env, lambda ce: self.eval(e.elt, ce), first=src), "generator")
 
     def e_DictComp(self, e, env):
         d = VDict(dict, [])
@@ -1366,6 +1384,8 @@ class Run:
             return iter(list(v.items)) if not isinstance(v, VList) else _live_iter(v)
         if isinstance(v, VIter):
             return v.it
+        if isinstance(v, (VSymIter, VSymList)):
+            raise Unsupported("iteration over a sequence of unknown length without an invariant")
         if isinstance(v, VDict):
             return iter([k for k, _ in v.pairs])
         if isinstance(v, VStr):
